@@ -87,7 +87,8 @@ META['C20'] = {
             'selectors_at_point_circuit (both PCS impls) = the four native Lagrange selector formulas of p3-commit. Unit quot: compute_quotient_chunk_products returns, per chunk, '
             '(prod_j Z_j(zeta) / Z_i(zeta)) / prod_{j != i} Z_j(g_i) (the natively pre-computed denominators included, for every number of chunks), compute_quotient_evaluation the sum over chunks of '
             'coefficient times basis recomposition, and recompose_quotient_from_chunks_circuit their composition — under the stated non-vanishing of the divisors.'
-            ' Round 15: circuit_exp_by_constant is total (base^0 = 1), no precondition on the exponent.',
+            ' Round 15: circuit_exp_by_constant is total (base^0 = 1), no precondition on the exponent.'
+            ' Round 18: unit pcswrap -- the domain operations both RecursivePcs impls hand to the verifier (periodic columns, disjoint domain, split, log size, first point) are the native operations on the domain they are GIVEN.',
     'note': 'Unit periodic: evaluate_one / evaluate_periodic_columns_circuit return, for every column, the Horner value of the lifted coset-inverse-DFT coefficients at point^(2^(log_n - log_period)), i.e. the native '
             'evaluate_periodic_column_at (native constants npow2 / idft / lift uninterpreted), and reject malformed columns. '
             'Assumed (proved elsewhere or trusted): builder arithmetic contracts (value of add/sub/mul/div/mul_add/define_const under one fixed input assignment); '
@@ -297,9 +298,12 @@ META['C14'] = {
             'inputs in a ghost sequence; OpenedValuesTargets::new, OpenedValuesTargetsWithLookups::new and BatchOpenedValuesTargets::new extend it by exactly the canonical flattening of the structure they '
             'return, give every target vector the length of the proof field it carries, and allocate no public input; the matching get_private_values return the canonical flattening of the proof values '
             '(get_values is empty). Hence position k of the packed vector lands on the k-th allocated target, which carries the same field element, and both have one length.',
-    'note': 'KERNEL: the opened-values family (uni-STARK, with lookups, batch). Not under contract: the commitment / FRI-proof / MMCS-proof target structures (pcs/fri/targets.rs), the builders in '
-            'public_inputs.rs pairing allocate() with pack_*(), and the second half of the property (no input the native verdict depends on is left unconstrained), which is a statement about the whole '
-            'verifier circuit. Assumed: alloc_private_inputs allocates count fresh private inputs in order; p3-uni-stark OpenedValues field list.',
+    'note': 'Unit pack: the opened-values family (uni-STARK, with lookups, batch). Unit pack2: the composite FRI structures of pcs/fri/targets.rs (FriProofTargets, QueryProofTargets, BatchOpeningTargets, '
+            'InputProofTargets, the Hiding* structures, Witness, HashProofTargets) against the contract of the Recursive trait, for every child type meeting it. Unit pack3: CommitmentTargets, ProofTargets, '
+            'CommonDataTargets (types/proof.rs). Unit pubin: the builders of public_inputs.rs pairing allocate() with pack_*(). Unit packres (round 18): the unified backend hands out exactly the builder\'s '
+            'vector for the matching input variant (FriVerifierResult::pack_public_inputs / pack_private_inputs) and refuses a mismatching one. '
+            'Not under contract: the second half of the property (no input the native verdict depends on is left unconstrained), which is a statement about the whole '
+            'verifier circuit. Assumed: alloc_private_inputs allocates count fresh private inputs in order; p3-uni-stark OpenedValues field list; MMCS-proof target structures of other PCS back ends.',
 }
 
 NOT_APPLICABLE['C04'] = ('soundness of the STARK / LogUp / FRI argument behind "an accepted proof attests a satisfying assignment" is a cryptographic statement no per-function contract here can state; '
